@@ -129,7 +129,10 @@ theorem const_of_empty_deps {P : Prog} {s : Storage} {q : NodeId} {rq : Rev} (h 
 
 /-- the verification loop (`any_dependency_changed`) under the invariant -/
 theorem anyDep_inc {P : Prog} {rank : Nat → Nat} {f : Nat} {B : List NodeId} (hU : SpecU P rank f) (bound : Nat) :
-    ∀ (deps : List Dep) (s : Storage), INV P s B →
+    ∀ (deps pref : List Dep) (s : Storage), INV P s B →
+      (∀ d', d' ∈ pref → Unchanged P s d') →
+      (∀ D1 d D2, deps = D1 ++ d :: D2 → ∀ q, d.node = .derived q → ∀ s', Evolves (fun q => rank q.fn < bound) s s' →
+          (∀ d', d' ∈ pref ++ D1 → Unchanged P s' d') → ∃ v R, BigN P s'.srcs s'.maps q v R) →
       (∀ d, d ∈ deps → d.stamp < s.epoch) →
       (∀ d, d ∈ deps → ∀ q, d.node = .derived q →
           rank q.fn < bound ∧ rank q.fn < f ∧ (∀ b, b ∈ B → rank q.fn < rank b.fn) ∧ q ∉ B) →
@@ -141,11 +144,11 @@ theorem anyDep_inc {P : Prog} {rank : Nat → Nat} {f : Nat} {B : List NodeId} (
   intro deps
   induction deps with
   | nil =>
-    intro s hinv _ _ _ _
+    intro pref s hinv _ _ _ _ _ _
     exact ⟨s, false, rfl, hinv, Evolves.refl _ s, rfl,
       fun _ d hd => (by cases hd), fun h => (by cases h)⟩
   | cons d ds ih =>
-    intro s hinv hst hrk hpres hmono
+    intro pref s hinv hpu hnext hst hrk hpres hmono
     have hne : d.stamp ≠ s.epoch := Nat.ne_of_lt (hst d List.mem_cons_self)
     -- continuing with the rest from a state `s1` that `s` evolved into
     have hcont : ∀ s1 : Storage, INV P s1 B → Evolves (fun q => rank q.fn < bound) s s1 → s1.stack = s.stack →
@@ -172,7 +175,14 @@ theorem anyDep_inc {P : Prog} {rank : Nat → Nat} {f : Nat} {B : List NodeId} (
           rcases hc with rfl | ⟨_, _, htv', _⟩
           · exact hmono d' (List.mem_cons_of_mem _ hd') q hq _ hl hne1
           · have := hst d' (List.mem_cons_of_mem _ hd'); omega
-      obtain ⟨s2, b, he2, hinv2, hev2, hstk2, hf2, ht2⟩ := ih s1 hinv1
+      obtain ⟨s2, b, he2, hinv2, hev2, hstk2, hf2, ht2⟩ := ih (pref ++ [d]) s1 hinv1
+        (fun d' hd' => by
+          rcases List.mem_append.1 hd' with h | h
+          · exact (hpu d' h).evolves hev1
+          · rw [List.mem_singleton.1 h]; exact hun)
+        (fun D1 d2 D2 hdec q hq s' hev' hall =>
+          hnext (d :: D1) d2 D2 (by rw [hdec]; rfl) q hq s' (hev1.trans hev')
+            (fun d' hd' => hall d' (by simpa [List.append_assoc] using hd')))
         (fun d' hd' => by rw [hev1.epoch]; exact hst d' (List.mem_cons_of_mem _ hd'))
         (fun d' hd' => hrk d' (List.mem_cons_of_mem _ hd')) hpres1 hmono1
       refine ⟨s2, b, he2, hinv2, hev1.trans hev2, hstk2.trans hstk1, ?_, ?_⟩
@@ -240,7 +250,7 @@ theorem anyDep_inc {P : Prog} {rank : Nat → Nat} {f : Nat} {B : List NodeId} (
                   exact ⟨rq, hl, Nat.le_of_not_gt hgt, Or.inl hde, const_of_empty_deps hok hde⟩)
           · rw [if_neg hemp]
             have hdne : rq.deps ≠ [] := fun e => hemp (by rw [e]; rfl)
-            obtain ⟨vq, Rq, hRq⟩ := hinv.evalOk q rq hl
+            obtain ⟨vq, Rq, hRq⟩ := hnext [] d ds rfl q hn s (Evolves.refl _ s) (by simpa using hpu)
             obtain ⟨s1, b1, tu1, r1, he1, hinv1, hev1', hstk1, hl1, hval1, htv1, _, _, hflag⟩ :=
               hU s B q vq Rq hinv hrk3 hrk2 hRq
             have hev1 : Evolves (fun x => rank x.fn < bound) s s1 :=
